@@ -38,6 +38,8 @@ static inline struct vs_astr vs_astr_from_ptr_n(const char *p, size_t n) { struc
 size_t g_poff;
 /* ghost: number of bytes written into the source buffer before a move */
 size_t g_w0;
+static inline size_t vs_min_sz(size_t a, size_t b) { return a < b ? a : b; }
+static inline size_t vs_max_sz(size_t a, size_t b) { return a < b ? b : a; }
 /* representation invariant: the buffer never exceeds the cap; the put area is the tail [g_poff, size) of data_ */
 #define DSB_INV(d) ((d)->data_.size <= (d)->maxSize_ && (d)->maxSize_ <= MAXLEN && FRESH((d)->data_.data, (d)->data_.size) \
     && g_poff <= (d)->data_.size && IN_RANGE((d)->data_.data, SB(d).pb, (d)->data_.data + (d)->data_.size) \
@@ -49,6 +51,7 @@ TYPES.update({'std::vector<char>': 'struct vs_vec', 'std::string': 'struct vs_as
               'DynamicStreamBuf::int_type': 'int', 'Pistache::DynamicStreamBuf::int_type': 'int'})
 STUBS = dict(_s.STUBS)
 STUBS.update({
+    'min': {'expr': 'vs_min_sz($0, $1)'}, 'max': {'expr': 'vs_max_sz($0, $1)'},
     'std::vector<char>::size': 'vs_vec_size', 'std::vector<char>::data': 'vs_vec_data', 'std::vector<char>::resize/1': 'vs_vec_resize',
     'std::basic_streambuf<char>::setp': 'vs_sb_setp', 'std::basic_streambuf<char>::pptr': 'vs_sb_pptr', 'std::basic_streambuf<char>::epptr': 'vs_sb_epptr',
     'std::basic_streambuf<char>::pbump': 'vs_sb_pbump', 'std::basic_streambuf<char>::pbase': 'vs_sb_pbase',
@@ -132,4 +135,19 @@ PROOFS = [
     {'name': 'DSB_move_ctor', 'enforce': 'Pistache_DynamicStreamBuf_move_ctor', 'props': ['C05']},
     {'name': 'DSB_move_assign', 'enforce': 'Pistache_DynamicStreamBuf_move_assign', 'props': ['C05']},
     {'name': 'DSB_buffer', 'enforce': 'Pistache_DynamicStreamBuf_buffer', 'props': ['C05']},
+]
+
+# ---- an override that does NOT exist on the unchanged tree (the buffer inherits std::streambuf::xsputn, which fills the put area and grows
+# through overflow() up to the cap): if one is added, it has to keep what ResponseWriter::putOnWire relies on -- a refusal is STICKY
+FUNCTIONS += [
+    {'q': 'Pistache::DynamicStreamBuf::xsputn', 'optional': True, 'contract': """
+        requires FRESH(this, sizeof(*this)) && DSB_INV(this) && 0 <= n && (size_t)n <= MAXLEN && FRESH(s, (size_t)n) && vs_exc == 0
+        assigns this->data_.data, this->data_.size, SB(this).pb, SB(this).pn, SB(this).pl, g_poff, __CPROVER_object_whole(this->data_.data), vs_exc
+        ensures 0 <= RET && RET <= n && this->data_.size <= this->maxSize_
+        # C05 (a response that exceeds the maximum response size is refused as a whole): a block that is not taken completely leaves the
+        # buffer FULL -- nothing written afterwards is accepted either, so the refusal cannot be overlooked by a later, smaller insertion
+        ensures RET < n ==> (this->data_.size == this->maxSize_ && SB(this).pn == SB(this).pl)"""},
+]
+PROOFS += [
+    {'name': 'DSB_xsputn', 'optional': True, 'enforce': 'Pistache_DynamicStreamBuf_xsputn', 'loops': ('unwind', 45), 'complete': 'the doubling loop runs at most 41 times for sizes up to 2^40', 'props': ['C05']},
 ]
